@@ -496,7 +496,7 @@ var $methodSet = typ => {
             }
             seen[e.typ.id] = true;
 
-            if (e.typ.named) {
+            if (e.typ.named && e.typ.kind !== $kindInterface) {
                 e.typ.methods.forEach(m => { declare(key(m.name, m.pkg), m); });
                 $ptrType(e.typ).methods.forEach(m => { declare(key(m.name, m.pkg), e.indirect ? m : null); });
             }
